@@ -1,4 +1,4 @@
-CONSTANTS Families = {"one", "rsv"}  Bug = "UserBit"  Emit = FALSE
+CONSTANTS Families = {"mini"}  Bug = "UserBit"  Emit = FALSE
   TwoFlags = {}
   TwoSizes = {}
   ThreeSizes = {}
